@@ -17,12 +17,16 @@ class C01Float(D.FloatStream):
     CLAUSES = ("C01_",)
 
 
+class C01Reuse(D.ReuseStream):
+    CLAUSES = ("C01_",)
+
+
 class C01Manager(MG.ManagerStream):
     CLAUSES = ("C01_",)
 
 
 def streams():
-    return [C01Exact(), C01Float(), C01Manager()]
+    return [C01Exact(), C01Float(), C01Manager(), C01Reuse()]
 
 
 ASSUMPTIONS = [
